@@ -52,6 +52,7 @@ type Contract struct {
 	Pure     bool
 	Trusted  bool
 	Inline   bool
+	NoInline bool // thin unit: callees without contract are not executed in place (except small leaves)
 	MayPanic bool
 	Requires []*Clause
 	Ensures  []*Clause
@@ -70,7 +71,21 @@ type Contract struct {
 	mangled string
 }
 
+// StableField: "//@ stable Cxx T.f [writers f1, f2]": no function of the package stores to field f
+// of an object of struct type T that it did not allocate itself (checked on the SSA of the whole
+// package: the census), except the listed writers; across unmodelled calls and loop cuts the
+// field therefore keeps its value.
+type StableField struct {
+	Props   []string
+	Type    string
+	Field   string
+	Writers []string
+	Line    int
+	File    string
+}
+
 type TargetPkg struct {
+	Stable    []*StableField
 	Path      string
 	Pkg       *packages.Package
 	Types     *types.Package
@@ -237,8 +252,11 @@ func mangleKey(k string) string {
 }
 
 // parseContracts reads the //@ lines of a contract file.
+var stableOut []*StableField // filled by parseContracts (loading is sequential)
+
 func parseContracts(fset *token.FileSet, f *ast.File, pkgPath string) (map[string]*Contract, error) {
 	res := map[string]*Contract{}
+	stableOut = nil
 	var cur *Contract
 	var lastClause *Clause
 	var lastMod bool
@@ -267,6 +285,30 @@ func parseContracts(fset *token.FileSet, f *ast.File, pkgPath string) (map[strin
 			lastClause, lastMod = nil, false
 			kw, rest, _ := strings.Cut(text, " ")
 			rest = strings.TrimSpace(rest)
+			if kw == "stable" {
+				// stable C06 codeGenOpBuilder.Authed [writers a, b]
+				fields := strings.Fields(rest)
+				sf := &StableField{Line: line, File: fname}
+				k := 0
+				for k < len(fields) && len(fields[k]) == 3 && fields[k][0] == 'C' {
+					sf.Props = append(sf.Props, fields[k])
+					k++
+				}
+				if k >= len(fields) || !strings.Contains(fields[k], ".") {
+					return nil, fmt.Errorf("%s:%d: bad stable directive %q", fname, line, rest)
+				}
+				tf := strings.SplitN(fields[k], ".", 2)
+				sf.Type, sf.Field = tf[0], tf[1]
+				if i := strings.Index(rest, "writers"); i >= 0 {
+					for _, w := range strings.Split(rest[i+len("writers"):], ",") {
+						if w = strings.TrimSpace(w); w != "" {
+							sf.Writers = append(sf.Writers, w)
+						}
+					}
+				}
+				stableOut = append(stableOut, sf)
+				continue
+			}
 			if kw == "func" {
 				cur = &Contract{Key: rest, PkgPath: pkgPath, Loops: map[int]*LoopSpec{}, File: fname, Line: line, mangled: mangleKey(rest)}
 				if res[rest] != nil {
@@ -289,10 +331,18 @@ func parseContracts(fset *token.FileSet, f *ast.File, pkgPath string) (map[strin
 				cur.Trusted = true
 			case "inline":
 				cur.Inline = true
+			case "noinline":
+				cur.NoInline = true
 			case "maypanic":
 				cur.MayPanic = true
 			case "requires":
-				lastClause = &Clause{Orig: rest, Line: line}
+				var tags []string
+				for strings.HasPrefix(rest, "@") {
+					t, r, _ := strings.Cut(rest, " ")
+					tags = append(tags, t[1:])
+					rest = strings.TrimSpace(r)
+				}
+				lastClause = &Clause{Orig: rest, Line: line, Tags: tags}
 				cur.Requires = append(cur.Requires, lastClause)
 			case "ensures":
 				var tags []string
@@ -797,6 +847,7 @@ func Load(rel []string, ghostDir string, extra []string) (*Engine, error) {
 					return nil, err
 				}
 				tp.Contracts = cs
+				tp.Stable = stableOut
 			}
 		}
 		gen, err := e.genGhost(tp)
